@@ -73,6 +73,10 @@ type c06BsCase struct {
 	wiring string // "light" | "bridge"
 	dup    bool   // the same call twice, concurrently, on the same getter
 	rng    *vkit.RNG
+	// hdrTamper (scripted exchange only): the header handed to the getter does not commit to one square
+	// ("col-swap": two column roots exchanged, "low-row": a bottom-half row root replaced, "col-one": one
+	// column root replaced); every block the servers send is the honest one for the top half
+	hdrTamper string
 }
 
 func (cs *c06BsCase) servers() string {
